@@ -45,7 +45,7 @@ var importRewrite = map[string]string{
 
 var dropMapHints = true
 
-var syncAllowed = map[string]bool{"Mutex": true, "RWMutex": true, "WaitGroup": true, "Once": true, "Pool": true, "Locker": true}
+var syncAllowed = map[string]bool{"Mutex": true, "RWMutex": true, "WaitGroup": true, "Once": true, "Pool": true, "Locker": true, "Map": true}
 
 type pkgInv struct {
 	Counts   map[string]int `json:"counts"`
